@@ -24,14 +24,15 @@ FEATS = {"flatten", "pattern", "additional", "class_aliaser", "frozen", "alias",
 
 
 def unique_over_objects(t):
-    from vf.spec import Ann
+    from vf.spec import Ann, Ref
+    ObjectT_ = (ObjectT, Ref)  # a recursive reference is an object position too
     for n in t.walk():
         cons = n.cons if isinstance(n, Ann) else None
-        if cons and cons.get("unique") and any(isinstance(x, ObjectT) for x in n.walk()):
+        if cons and cons.get("unique") and any(isinstance(x, ObjectT_) for x in n.walk()):
             return True
         if isinstance(n, ObjectT):
             for f in n.fields:
-                if (f.cons or {}).get("unique") and any(isinstance(x, ObjectT) for x in f.t.walk()):
+                if (f.cons or {}).get("unique") and any(isinstance(x, ObjectT_) for x in f.t.walk()):
                     return True
     return False
 
